@@ -77,6 +77,11 @@ CLAIMED = {
             "Trusted: the frame taken by the decorator at Start/End (the output variable is assigned by the caller after End, hence outside the frame). Internal temporaries other than the argument array are outside the statement and only counted. Flow-control commands are never fault points.",
             "deterministic simulation: error injection on every inner line of script-implemented commands (nested buggify) with before/after frame oracle on variables and handle table",
             "DESIGN.md section 3 C19, Appendix D.7"),
+    "C20": ("exploration",
+            "Differential simulation across the process boundary: seeded scripts are handed to the real duck executable (subprocess, clean environment, private cwd) in every invocation form, with the script file sometimes missing, a directory or not UTF-8, and compared with the in-process library run on the same directory: exit status, byte-equal stdout including the 'Error:' message, and the lint verdict (accepted exactly when it parses and all labels/commands/outputs are lower-case, never running the script). Modest: no schedule is involved.",
+            "Trusted: the in-process library run as the reference (the statement defines the CLI relative to it). Scripts avoid file-system/process/network commands and hash-order-dependent output.",
+            "deterministic simulation: seeded scripts and script-file faults through the real executable as a subprocess vs in-process library reference (differential)",
+            "DESIGN.md section 3 C20"),
 }
 
 NOT_YET = {k: "applicable and planned (DESIGN.md section 3) but its check is not built yet; not claimed until it is" for k in
@@ -91,7 +96,7 @@ def main():
             "quick_cmd": f"bin/check {pid} quick",
             "thorough_cmd": f"bin/check {pid} thorough",
             "evidence_file": f"/verif/evidence/{pid}.json",
-            "replay_cmd_template": "sim/target/debug/dsim replay {path}",
+            "replay_cmd_template": "bin/replay {path}",
             "engine": "dsim",
             "level_claimed": {"category": level, "text": text, "design_ref": ref},
             "level_note": note,
